@@ -235,7 +235,7 @@ CHECKS = {
         ],
         "units": [
             {"name": "netsim", "module": "harness", "pkg": "./checks/c17", "test": "TestC17", "tags": "verif",
-             "quick": {"checks": 30, "shards": 16, "timeout": 900, "shrink": "10s", "regress_n": 12},
+             "quick": {"checks": 30, "shards": 16, "timeout": 900, "shrink": "10s", "regress_n": 30},
              "thorough": {"checks": 700, "shards": 16, "timeout": 7200, "shrink": "60s", "regress_n": 60}},
         ],
     },
